@@ -24,7 +24,7 @@ TITLE = "a Dataset's variables always share the Dataset's axes"
 RULE = ("breadth-first search over histories of Dataset mutations (alphabet in the module docstring, ~60 parameterised events, keys a/b/c, "
         "dims x/y/z/u) from 4 start states (empty, constructed from equal-label arrays, constructed from differing labels = outer join, "
         "constructed with an unsorted axis; events include the inplace=False variants - whose returned copy is the Dataset from then on - chained "
-        "and swapped rename_keys mappings and a float32 axis relabelled with a value it cannot hold), de-duplicated on the canonical form; every transition is executed on the real Dataset in "
+        "and swapped rename_keys mappings a float32 axis relabelled with a value it cannot hold, a variable built on the dataset's own axes object), de-duplicated on the canonical form; every transition is executed on the real Dataset in "
         "lock-step with RefDS and all invariants are evaluated in every reached state; non-trivial = the transition changes the state "
         "or is a rejected assignment")
 ASSUMPTIONS = ["RefDS (mc/props/c13.py) encodes the statement: shared registry, pruning of unused axes, rejection without side effect",
